@@ -772,6 +772,14 @@ def client_group(ctx, rep):
     forbidden_consts = {"primes::LARGE_SAFE_PRIME_LITTLE_ENDIAN", "primes::LARGE_SAFE_PRIME_BIG_ENDIAN", "primes::GENERATOR", "srp_internal::PRECALCULATED_XOR_HASH"}
     hit_f = sorted(clo & forbidden_fns)
     hit_c = sorted((p, c) for p in clo for c in util.const_uses(fb, fb.bodies[p]) if c in forbidden_consts)
+    if hit_c:
+        # an arm of a looked-through helper that this caller can never take (it matches on an enum
+        # value the caller has just built with another variant) mentions nothing for this caller:
+        # count the blocks the term engine reaches
+        def live(p_):
+            se_ = ctx.wrap.run(p_)
+            return (set(se_.in_state) | {0}) if se_ is not None and getattr(se_, "converged", False) else None
+        hit_c = sorted((p, c) for p in {p_ for p_, _ in hit_c} for c in util.const_uses(fb, fb.bodies[p], live(p)) if c in forbidden_consts)
     rep.check(root in clo and not hit_f and not hit_c, "client-group", root, "no-builtin-group", "%d functions in the client constructor's closure; none touches the built-in group" % len(clo), "the client handshake reaches the built-in group: functions %s, constants %s" % (hit_f, hit_c))
     # positive fixture: the server closure does reach the defaults (the rule is not vacuous)
     sclo = util.call_graph_closure(fb, ["server::SrpVerifier::into_proof", "server::SrpProof::into_server"])
